@@ -4,7 +4,7 @@ Shapes = {21, 31, 22, 32}
 EVals = {0, 1, 3, 4}
 ThCfgs = {1, 2, 3, 4, 5, 6, 7}
 KCfgs = {1, 2, 3}
-Funs = {1, 2, 4}
+Funs = {1, 2, 4, 5}
 INVARIANTS Consecutive AgreesWithDefinition CredOfDominator DominanceLemma IdenticalLemma ScaleLemma
 PROPERTIES Progress
 CHECK_DEADLOCK FALSE
